@@ -95,6 +95,12 @@ class C02(Prop):
                     tail = r.choice([b"body", b"", b"x\ny"])
                     v0 = head + b"\n" + mid + b"\n" + tail
                     v1 = head + b"\n" + mid + b"\r\n" + tail
+                if r.chance(1, 12):
+                    # the two values differ only in a line whose 32-bit string hashes collide (see C13.HASH_COLLISIONS)
+                    from C13 import HASH_COLLISIONS
+                    x_, y_ = r.choice(HASH_COLLISIONS)
+                    head = G.gen_text(r, maxlines=2).rstrip(b"\n") or b"alpha"
+                    v0, v1 = head + b"\n" + x_ + b"\nomega", head + b"\n" + y_ + b"\nomega"
                 a = G.op_match_snap(0, test, [v0]) if api == "snap" else G.op_match_doc("stand", 0, test, v0)
                 b = G.op_match_snap(0, test, [v1]) if api == "snap" else G.op_match_doc("stand", 0, test, v1)
             elif api == "yaml":
